@@ -20,8 +20,9 @@ For every module of the package `lena` below <repo> an AST + symtable pass produ
             level lambdas; nested scopes are merged into the outermost one): the global names it
             loads (symtable decides what is global), the attribute chains rooted at a global name or
             at a name bound by an import statement inside the function, and its import statements.
-            References guarded by `except NameError` / `except AttributeError` (or broader) are left
-            out, dead branches are pruned as above.
+            References guarded by `except NameError` are left out; chains below `except AttributeError`
+            (or broader) are kept with guard "A" (the model excuses them unless the missing link is a
+            submodule of the tree); dead branches are pruned as above.
   dyndefs   names a function may create in the module namespace (`global x` + assignment).
   refl      per function: references to a name of a module namespace by a *computed* string
             (getattr(M, e), M.__dict__[e], vars(M)[e], globals()[e], sys.modules[__name__]): the chain that
@@ -347,7 +348,7 @@ class ModuleExtractor(object):
             if ln in _TYPE_ATTRS:
                 links = links[:k]       # M.__dict__, M.__class__: not a name of the namespace of M
                 break
-        if not links or env.guard_attr or env.comp_bound(root):
+        if not links or env.comp_bound(root) or (env.guard_attr and not env.calltime):
             return
         if env.calltime:
             rv = env.lookup_localmod(root)
@@ -359,7 +360,13 @@ class ModuleExtractor(object):
                 if not sym.is_global():
                     return
                 rv = ""
-            env.func["chains"].setdefault((root, rv, tuple(links)), line)
+            # a chain below a handler that catches AttributeError is kept with guard "A": the handler excuses a
+            # missing plain attribute, not a missing SUBMODULE of the tree (that link depends on what has been
+            # imported, so the handler would run in one import state and not in another: Imports.tla BadChains)
+            key = (root, rv, tuple(links))
+            env.func["chains"].setdefault(key, line)
+            if not env.guard_attr:
+                env.func.setdefault("chains_plain", set()).add(key)
         else:
             if env.kind != "module":
                 try:
@@ -506,6 +513,7 @@ class ModuleExtractor(object):
                         root = "__name__"       # sys.modules[__name__]: rv is this module
                     if env.calltime:
                         env.func["chains"].setdefault((root, rv, tuple(links) + (name.value,)), node.lineno)
+                        env.func.setdefault("chains_plain", set()).add((root, rv, tuple(links) + (name.value,)))
                     else:
                         self.add(stmt("use", node.lineno, root=root, rv=rv, links=list(links) + [name.value]))
                 return
@@ -963,7 +971,9 @@ class ModuleExtractor(object):
                     st[k] = st[k].pc or 0
         for f in self.funcs:
             f["loads"] = [{"name": n, "line": ln} for n, ln in sorted(f["loads"].items())]
-            f["chains"] = [{"root": r, "rv": rv, "links": list(ls), "line": ln}
+            plain = f.pop("chains_plain", set())
+            f["chains"] = [{"root": r, "rv": rv, "links": list(ls), "line": ln,
+                            "guard": "" if (r, rv, ls) in plain else "A"}
                            for (r, rv, ls), ln in sorted(f["chains"].items())]
         for f in self.funcs:
             nodes, succ, seeds = [], [], []
@@ -1130,8 +1140,8 @@ def to_tla(data, name, entry_sets, trace=False, specdir=None):
         (f["id"], "{%s}" % ", ".join("[name |-> %s, line |-> %d]" % (_s(l["name"]), l["line"]) for l in f["loads"]))
         for f in funcs))
     L.append("FChains == %s" % _fun(
-        (f["id"], "{%s}" % ", ".join("[root |-> %s, rv |-> %s, links |-> %s, line |-> %d]" % (
-            _s(c["root"]), _s(c["rv"]), _seq(c["links"]), c["line"]) for c in f["chains"]))
+        (f["id"], "{%s}" % ", ".join("[root |-> %s, rv |-> %s, links |-> %s, line |-> %d, guard |-> %s]" % (
+            _s(c["root"]), _s(c["rv"]), _seq(c["links"]), c["line"], _s(c.get("guard", ""))) for c in f["chains"]))
         for f in funcs))
     def refl_tla(d):
         return ("[root |-> %s, rv |-> %s, links |-> %s, how |-> %s, names |-> %s, open |-> %s, pat |-> %s, "
